@@ -60,6 +60,14 @@ theorem post_throw {α : Type} {Q : α → Prop} (e : PErr) : Post (throw e : P 
   intro s a s' h
   simp [StateT.run, throw, throwThe, MonadExceptOf.throw, StateT.lift, bind, Except.bind] at h⟩
 
+theorem post_failHere_bind {α β : Type} {f : α → P β} {R : β → Prop} :
+    Post ((failHere : P α) >>= f) R :=
+  post_bind (Q := fun _ => False) post_failHere (fun _ h => h.elim)
+
+theorem post_throw_bind {α β : Type} {e : PErr} {f : α → P β} {R : β → Prop} :
+    Post ((throw e : P α) >>= f) R :=
+  post_bind (Q := fun _ => False) (post_throw e) (fun _ h => h.elim)
+
 /-- `if c then A else B`, keeping the condition as a hypothesis in each branch. -/
 theorem post_ite {α : Type} {c : Prop} [Decidable c] {A B : P α} {Q : α → Prop}
     (hA : c → Post A Q) (hB : ¬c → Post B Q) : Post (if c then A else B) Q := by
@@ -110,8 +118,11 @@ macro_rules | `(tactic| wf_close) => `(tactic|
 
 /-- Extensible leaf rule set for `post_auto` (later rules are tried first). -/
 syntax "post_leaf" : tactic
+macro_rules | `(tactic| post_leaf) => `(tactic| (apply_assumption <;> assumption))
 macro_rules | `(tactic| post_leaf) => `(tactic| exact post_throw _)
 macro_rules | `(tactic| post_leaf) => `(tactic| exact post_failHere)
+macro_rules | `(tactic| post_leaf) => `(tactic| exact post_throw_bind)
+macro_rules | `(tactic| post_leaf) => `(tactic| exact post_failHere_bind)
 macro_rules | `(tactic| post_leaf) => `(tactic| assumption)
 
 /-- Walks a `do` block: guards keep their negated condition, binds whose result matters are
@@ -128,6 +139,7 @@ macro_rules
       | with_reducible apply post_bind
       | exact post_true _
       | (with_reducible apply post_pure; wf_close)
+      | (show Post _ _; dsimp only)
       | intro _
       | split))
 
@@ -165,14 +177,25 @@ theorem post_parseArgNode (env : Env) (pe : P Node) (hpe : Post pe WfN) :
 
 macro_rules | `(tactic| post_leaf) => `(tactic| (apply post_parseArgNode; post_leaf))
 
-/-- An optional expression (`if c then parseExpr else nil`). -/
+/-- An optional expression (`if c then parseExpr else nil`): present when `c`. -/
 theorem post_optExpr {c : Prop} [Decidable c] {pe : P Node} (hpe : Post pe WfN) :
-    Post (if c then pe else pure .nil) (fun n => wf n = true) := by
-  apply post_ite <;> intro _
-  · exact post_mono hpe (fun _ h => h.2)
-  · exact post_pure wf_nil
+    Post (if c then pe else pure .nil) (fun n => wf n = true ∧ (c → n.isNil = false)) := by
+  apply post_ite <;> intro hc
+  · exact post_mono hpe (fun _ h => ⟨h.2, fun _ => h.1⟩)
+  · exact post_pure ⟨wf_nil, fun h => absurd h hc⟩
+
+theorem post_optExpr2 {c d : Prop} [Decidable c] [Decidable d] {pe pe' : P Node}
+    (hpe : Post pe WfN) (hpe' : Post pe' WfN) :
+    Post (if c then pe else if d then pe' else pure .nil)
+      (fun n => wf n = true ∧ (c ∨ d → n.isNil = false)) := by
+  apply post_ite <;> intro hc
+  · exact post_mono hpe (fun _ h => ⟨h.2, fun _ => h.1⟩)
+  · apply post_ite <;> intro hd
+    · exact post_mono hpe' (fun _ h => ⟨h.2, fun _ => h.1⟩)
+    · exact post_pure ⟨wf_nil, fun h => by cases h <;> contradiction⟩
 
 macro_rules | `(tactic| post_leaf) => `(tactic| (apply post_optExpr; post_leaf))
+macro_rules | `(tactic| post_leaf) => `(tactic| (apply post_optExpr2 <;> post_leaf))
 
 /-- `parseBracket` with the two reads of the token after `[` merged into one (the second
 `peek1` of the original sees the same token when no expression was parsed in between). -/
